@@ -204,6 +204,9 @@ fn check_implies_lut(n: usize, t: &TT, pos: u32, neg: u32) -> Verdict {
 pub fn replay(case: &Case) -> Result<Verdict, String> {
     let h = |k: &str| -> Result<u32, String> { u32::from_str_radix(case.get(k)?, 16).map_err(|e| e.to_string()) };
     let list = |k: &str| -> Result<Vec<usize>, String> { case.get(k)?.split('.').filter(|s| !s.is_empty()).map(|s| s.parse::<usize>().map_err(|e| e.to_string())).collect() };
+    if case.get("kind")? == "tour" {
+        return super::xsize::replay(case, &tour);
+    }
     Ok(match case.get("kind")? {
         "single" => check_single(h("pa")?, h("na")?),
         "pair" => check_pair(h("pa")?, h("na")?, h("pb")?, h("nb")?),
@@ -229,6 +232,21 @@ fn rec(l: &mut Local, v: Verdict, key: String, sig: &str, case: String, nontrivi
         }
         Err(e) => l.violation(key, &format!("C12/{}", sig), case, e.0, e.1),
     }
+}
+
+/// One tour: the enumeration and implies_lut at every ordered pair of sizes consecutively.
+pub fn tour(which: &str, k: usize, _thorough: bool) -> Result<super::xsize::Tour, String> {
+    if which != "sizes" || k != 0 {
+        return Err("no such tour".into());
+    }
+    let mut t = super::xsize::Tour::new("sizes:0");
+    let sizes: Vec<usize> = (0..=6).collect();
+    for s in super::xsize::size_pairs(&sizes) {
+        t.push(format!("Cube::all({})", s), move || check_all(s));
+        let tab = TT::from_fn(s, |m| crate::model::alpha::popcount(m) % 3 != 1);
+        t.push(format!("implies_lut n={}", s), move || check_implies_lut(s, &tab, if s > 0 { 1 } else { 0 }, if s > 1 { 2 } else { 0 }));
+    }
+    Ok(t)
 }
 
 pub fn run(run: &Run) {
@@ -368,7 +386,7 @@ pub fn run(run: &Run) {
                 let f = TT::from_fn(k, |a| m.value(a as u64));
                 let mut tables: Vec<TT> = vec![f.clone(), f.not(), TT::zero(k).not(), TT::zero(k)];
                 let nb = nbits(k);
-                let mut pts: Vec<usize> = vec![0, 1, 63, 64, 65, 127, 128, 129, 191, 192, 255, 256, nb / 2 - 1, nb / 2, nb - 65, nb - 64, nb - 1];
+                let mut pts: Vec<usize> = vec![0, 1, 63, 64, 65, 127, 128, 129, 191, 192, 255, 256, (nb / 2).wrapping_sub(1), nb / 2, nb.wrapping_sub(65), nb.wrapping_sub(64), nb - 1];
                 pts.retain(|x| *x < nb);
                 for a in pts {
                     let mut g = f.clone();
@@ -437,4 +455,5 @@ pub fn run(run: &Run) {
             }
         }
     });
+    super::xsize::run_tours(run, "C12", "sizes (Cube::all(n) and implies_lut at every ordered pair of sizes 0..=6 consecutively)", "the enumeration must be the 3^n cubes over variables 0..n whatever was enumerated before on the thread", 1, &|k| tour("sizes", k, false).unwrap());
 }
